@@ -48,12 +48,12 @@ type c19Client struct {
 }
 
 var (
-	c19Subs   [2]int                      // Subscribe calls per target
-	c19Polls  [2]int                      // Poll calls per target
-	c19Req    [2]*gnmi.SubscribeRequest   // the request handed to the target (query.SubReq)
-	c19Resp   [2]*gnmi.SubscribeResponse  // the response the target emitted through the query's proto handler
-	c19Other  int                         // lookups of any other target
-	c19HErr   bool                        // the proto handler returned an error
+	c19Subs  [2]int                     // Subscribe calls per target
+	c19Polls [2]int                     // Poll calls per target
+	c19Req   [2]*gnmi.SubscribeRequest  // the request handed to the target (query.SubReq)
+	c19Resp  [2]*gnmi.SubscribeResponse // the response the target emitted through the query's proto handler
+	c19Other int                        // lookups of any other target
+	c19HErr  bool                       // the proto handler returned an error
 )
 
 func (c *c19Client) Subscribe(ctx context.Context, q baseClient.Query) error {
